@@ -55,11 +55,20 @@ inline OpResult apply(const Op& op, int slot) {
 	case OP_UPDATE: m.update(); break;
 	case OP_REACT: G.event = &g_event; m.react(g_event); break;
 	case OP_QUERY: G.event = &g_query; m.query(g_query); break;
+#if VX_TFORM
+	case OP_CHANGE: tdispatch<TF_Change>(op.a, m); break;
+	case OP_IMM: tdispatch<TF_Imm>(op.a, m); break;
+#if VX_PAYLOAD
+	case OP_CHANGEW: { Payload p = mk_payload(op.b); const Payload& cp = p; tdispatch<TF_ChangeW>(op.a, m, cp); memset(&p, 0xDD, sizeof p); } break;
+	case OP_IMMW: { Payload p = mk_payload(op.b); const Payload& cp = p; tdispatch<TF_ImmW>(op.a, m, cp); memset(&p, 0xDD, sizeof p); } break;
+#endif
+#else
 	case OP_CHANGE: m.changeTo(static_cast<ffsm2::StateID>(op.a)); break;
 	case OP_IMM: m.immediateChangeTo(static_cast<ffsm2::StateID>(op.a)); break;
 #if VX_PAYLOAD
 	case OP_CHANGEW: { Payload p = mk_payload(op.b); m.changeWith(static_cast<ffsm2::StateID>(op.a), p); memset(&p, 0xDD, sizeof p); } break;
 	case OP_IMMW: { Payload p = mk_payload(op.b); m.immediateChangeWith(static_cast<ffsm2::StateID>(op.a), p); memset(&p, 0xDD, sizeof p); } break;
+#endif
 #endif
 #if VX_MANUAL
 	case OP_ENTER: m.enter(); break;
@@ -92,14 +101,26 @@ inline OpResult apply(const Op& op, int slot) {
 	case OP_ATTACH: m.attachLogger(op.a ? &g_log : nullptr); break;
 #endif
 #if VX_PLANS
+#if VX_TFORM
+	case OP_PLAN_CHANGE: { auto p = m.plan(); int d = op.b; bool ok = false; tdispatch<TF_PlanChange1>(op.a, p, d, ok); r.ret = ok; } break;
+#if VX_PAYLOAD
+	case OP_PLAN_CHANGEW: { auto p = m.plan(); Payload pl = mk_payload(op.c); const Payload& cpl = pl; int d = op.b; bool ok = false; tdispatch<TF_PlanChangeW1>(op.a, p, d, cpl, ok); r.ret = ok; memset(&pl, 0xDD, sizeof pl); } break;
+#endif
+#else
 	case OP_PLAN_CHANGE: { auto p = m.plan(); r.ret = p.change(static_cast<ffsm2::StateID>(op.a), static_cast<ffsm2::StateID>(op.b)); } break;
 #if VX_PAYLOAD
 	case OP_PLAN_CHANGEW: { auto p = m.plan(); Payload pl = mk_payload(op.c); r.ret = p.changeWith(static_cast<ffsm2::StateID>(op.a), static_cast<ffsm2::StateID>(op.b), pl); memset(&pl, 0xDD, sizeof pl); } break;
 #endif
+#endif
 	case OP_PLAN_CLEAR: { auto p = m.plan(); p.clear(); } break;
 	case OP_PLAN_REMOVE: { auto p = m.plan(); unsigned pos = 0; for (auto it = p.begin(); it; ++it, ++pos) { ++r.aux; if ((op.a >> pos) & 1u) it.remove(); } } break;
+#if VX_TFORM
+	case OP_SUCCEED: tdispatch<TF_Succeed>(op.a, m); break;
+	case OP_FAIL: tdispatch<TF_Fail>(op.a, m); break;
+#else
 	case OP_SUCCEED: m.succeed(static_cast<ffsm2::StateID>(op.a)); break;
 	case OP_FAIL: m.fail(static_cast<ffsm2::StateID>(op.a)); break;
+#endif
 #endif
 	case OP_DESTROY: m.~Inst(); break;
 	default: die("apply: op kind %d not available in this configuration", op.k);
